@@ -1860,7 +1860,51 @@ func xProgramBody(p *Prog, r *R, prof string) {
 				p.xNewFrom(r.chance(0.5))
 			}
 		case "C12x":
-			switch r.Intn(6) {
+			switch r.Intn(7) {
+			case 6:
+				// a live container - plain or a derived structure - is stored through one of the entry points, and the kind of exactly
+				// that slot is asked for, by index / key and by path (a container is a List or an Object whatever its Go type)
+				if len(p.m.vars) > 0 {
+					src := r.Intn(len(p.m.vars))
+					if r.chance(0.6) {
+						for try := 0; try < 6; try++ {
+							if c := r.Intn(len(p.m.vars)); isDerived(p.m.vars[c]) {
+								src = c
+								break
+							}
+						}
+					}
+					v := Operand{IsReg: true, Reg: src}
+					if len(ls) > 0 && (len(os) == 0 || r.chance(0.6)) {
+						l := pickOf(r, ls)
+						if p.storable(v, l) {
+							n := p.m.list(l).Count()
+							at_ := int64(n)
+							switch {
+							case n > 0 && r.chance(0.4):
+								at_ = int64(r.Intn(n))
+								p.do(&Op{Name: "LReplace", R: l, I: at_, Vals: []Operand{v}})
+							case n > 0 && r.chance(0.5):
+								at_ = int64(r.Intn(n))
+								p.do(&Op{Name: "LInsert", R: l, I: at_, Vals: []Operand{v}})
+							default:
+								p.do(&Op{Name: "LAdd", R: l, Vals: []Operand{v}})
+							}
+							p.do(&Op{Name: "LTypeOf", R: l, I: at_})
+							p.do(&Op{Name: "TypeOfTF", R: l, TF: fmt.Sprintf("#%d", at_)})
+							p.do(&Op{Name: "LGetTyped", R: l, I: at_, Kind: pickOf(r, []at.Type{at.TypeObject, at.TypeList})})
+						}
+					} else if len(os) > 0 {
+						ob := pickOf(r, os)
+						if p.storable(v, ob) {
+							k := pickOf(r, []string{"c", "held", "k0"})
+							p.do(&Op{Name: "OSet", R: ob, Vals: []Operand{{V: vstr(k)}, v}})
+							p.do(&Op{Name: "OTypeOf", R: ob, K: k})
+							p.do(&Op{Name: "TypeOfTF", R: ob, TF: "." + k})
+							p.do(&Op{Name: "OGetTyped", R: ob, K: k, Kind: pickOf(r, []at.Type{at.TypeObject, at.TypeList})})
+						}
+					}
+				}
 			case 0, 1, 2:
 				p.xNewFrom(r.chance(0.5))
 			case 3:
